@@ -70,6 +70,7 @@ def ext_names(spec: Sp, dyn, serialization=False):
 
 class Views:
     def __init__(self, job):
+        self.method_note = 'concrete side conditions per program (schemas, GraphQL names): no symbolic input'
         self.job = job
         self.prog = program_of(job)
         self.dyn = get_aliaser(job.get("opts", {}).get("aliaser")) or (lambda s: s)
